@@ -299,10 +299,14 @@ pub fn run(o: &Opts, rep: &mut Report) {
     }
 }
 
-pub fn trace_main(o: &Opts, id: &str) -> i32 {
-    install_subscriber(false);
+pub fn trace_main(o: &Opts, id: &str, subscriber: bool) -> i32 {
+    install_subscriber(subscriber);
     let (h, n, trace) = digest_case(o.seed, id, true);
-    println!("build: tracing feature {}", if built_with_tracing() { "ON" } else { "OFF" });
+    println!(
+        "build: tracing feature {}{}",
+        if built_with_tracing() { "ON" } else { "OFF" },
+        if subscriber { ", TRACE subscriber installed" } else { "" }
+    );
     println!("digest {:016x} events {}", h, n);
     for l in trace {
         println!("{}", l);
@@ -318,16 +322,32 @@ pub fn replay(o: &Opts, parts: &[&str]) -> i32 {
     }
     let seed: u64 = parts[2].parse().unwrap_or(1);
     let id = format!("{}:{}:{}", parts[3], parts[4], parts[5]);
-    let mut o2 = Opts { seed, ..clone_opts(o) };
+    let mut o2 = clone_opts(o);
     o2.seed = seed;
-    trace_main(&o2, &id);
+    let (base, _, _) = digest_case(seed, &id, false);
+    trace_main(&o2, &id, false);
+    let mut differs = false;
     if let Ok(bin) = std::env::var("CBVERIF_TRACING_BIN") {
-        let out = std::process::Command::new(bin).arg("trace").arg("--seed").arg(seed.to_string()).arg("--file").arg(&id).output();
-        if let Ok(out) = out {
-            println!("{}", String::from_utf8_lossy(&out.stdout));
+        for cmd in ["trace", "trace-sub"] {
+            let out = std::process::Command::new(&bin).arg(cmd).arg("--seed").arg(seed.to_string()).arg("--file").arg(&id).output();
+            if let Ok(out) = out {
+                let so = String::from_utf8_lossy(&out.stdout).to_string();
+                println!("{}", so);
+                let want = format!("digest {:016x} ", base);
+                if !so.lines().any(|l| l.starts_with(&want)) {
+                    differs = true;
+                }
+            }
         }
+    } else {
+        println!("(CBVERIF_TRACING_BIN not set: run through ./check C20 --replay <file> to see the traces of the tracing build)");
     }
-    0
+    if differs {
+        println!("violation: the digests of the three configurations differ for case {}", id);
+        1
+    } else {
+        0
+    }
 }
 
 fn clone_opts(o: &Opts) -> Opts {
